@@ -18,6 +18,7 @@ func checkC14(c *Check) {
 	c.configuredHoldTimeProvenance("C14.1 configured-hold-time")
 	c.routerIDAccepted("C14.1 router-id-source")
 	c.codecContracts("C14.1 codec-effects")
+	c.capabilityCodec("C14.2 capability-codec")
 	c.accumulatorsStartEmpty("C14.1 accumulators", "openMessage.encode", "capabilityOptionalParam.encode", "newOpenMessage")
 	c.specConstants("C14.1 spec-constants", "openMessageType", "asTrans", "capabilityOptionalParamType", "CAP_FOUR_OCTET_AS", "headerLength")
 	fn := p.Fn("newOpenMessage")
@@ -165,52 +166,7 @@ func checkC14(c *Check) {
 			}
 		}
 		c.oneOpenPerConnection("C14.3 one-open-per-connection")
-		// error edges: close, go idle, never start reading
-		idle := p.MustConst("idleState")
-		openSent := p.MustConst("openSentState")
-		isErrOf := func(callee string) func(*Expr) bool {
-			return func(e *Expr) bool {
-				if e.Op != "nn" {
-					return false
-				}
-				x := e.Args[0]
-				return x.Op == "ex" && x.Args[0].Op == "rcall" && x.Args[0].S == callee
-			}
-		}
-		for _, w := range []struct {
-			name string
-			hook func(e *Expr) (ISet, bool)
-			ok   bool
-		}{
-			{"newOpenMessage fails", rangeHook(isErrOf("newOpenMessage"), isConst(1)), false},
-			{"encode fails", hooks(rangeHook(isErrOf("newOpenMessage"), isConst(0)), rangeHook(isErrOf("openMessage.encode"), isConst(1))), false},
-			{"Write fails", hooks(rangeHook(isErrOf("newOpenMessage"), isConst(0)), rangeHook(isErrOf("openMessage.encode"), isConst(0)), rangeHook(isErrOf("invoke:net.Conn.Write"), isConst(1))), false},
-			{"all succeed", hooks(rangeHook(isErrOf("newOpenMessage"), isConst(0)), rangeHook(isErrOf("openMessage.encode"), isConst(0)), rangeHook(isErrOf("invoke:net.Conn.Write"), isConst(0))), true},
-		} {
-			b := NewAnalysis(p, so)
-			b.AtomHook = w.hook
-			b.NoInline = map[string]bool{"newOpenMessage": true}
-			b.Run()
-			ok := len(b.Returns) > 0
-			for _, r := range b.Returns {
-				st := r.State
-				v, isC := st.rangeOf(r.Results[0]).IsConst()
-				if w.ok {
-					if !(isC && v == openSent && (st.must["call:fsm.startReading"] || st.must["go:fsm.read"]) && st.must["assign:holdTimer"] && !st.may["call:invoke:net.Conn.Close"]) {
-						ok = false
-					}
-				} else {
-					if !(isC && v == idle && st.must["call:invoke:net.Conn.Close"] && !st.may["call:fsm.startReading"] && !st.may["go:fsm.read"]) {
-						ok = false
-					}
-					if w.name != "Write fails" && st.may["call:invoke:net.Conn.Write"] {
-						ok = false
-					}
-				}
-			}
-			c.require(ok, "C14.3 abort-on-error", "fsm.sendOpenAndSetHoldTimer", w.name, p.Pos(so.Pos()),
-				"on any error the connection is closed, nothing (more) is written, the reader is not started and the FSM returns to Idle; on success the hold timer is armed and the reader started")
-		}
+		c.openAbortOnError("C14.3 abort-on-error")
 	}
 	// router id provenance
 	if ns := p.Fn("NewServer"); ns != nil {
@@ -473,4 +429,60 @@ func inLoopBody(cl ssa.CallInstruction) bool {
 		return false
 	}, func(x ssa.Instruction) bool { _, ok := x.(*ssa.Return); return ok })
 	return hit != nil
+}
+
+// openAbortOnError: error edges of sendOpenAndSetHoldTimer: close, go idle,
+// never start reading.
+func (c *Check) openAbortOnError(rule string) {
+	p := c.P
+	so := p.Fn("fsm.sendOpenAndSetHoldTimer")
+	if so == nil {
+		return
+	}
+	// error edges: close, go idle, never start reading
+	idle := p.MustConst("idleState")
+	openSent := p.MustConst("openSentState")
+	isErrOf := func(callee string) func(*Expr) bool {
+		return func(e *Expr) bool {
+			if e.Op != "nn" {
+				return false
+			}
+			x := e.Args[0]
+			return x.Op == "ex" && x.Args[0].Op == "rcall" && x.Args[0].S == callee
+		}
+	}
+	for _, w := range []struct {
+		name string
+		hook func(e *Expr) (ISet, bool)
+		ok   bool
+	}{
+		{"newOpenMessage fails", rangeHook(isErrOf("newOpenMessage"), isConst(1)), false},
+		{"encode fails", hooks(rangeHook(isErrOf("newOpenMessage"), isConst(0)), rangeHook(isErrOf("openMessage.encode"), isConst(1))), false},
+		{"Write fails", hooks(rangeHook(isErrOf("newOpenMessage"), isConst(0)), rangeHook(isErrOf("openMessage.encode"), isConst(0)), rangeHook(isErrOf("invoke:net.Conn.Write"), isConst(1))), false},
+		{"all succeed", hooks(rangeHook(isErrOf("newOpenMessage"), isConst(0)), rangeHook(isErrOf("openMessage.encode"), isConst(0)), rangeHook(isErrOf("invoke:net.Conn.Write"), isConst(0))), true},
+	} {
+		b := NewAnalysis(p, so)
+		b.AtomHook = w.hook
+		b.NoInline = map[string]bool{"newOpenMessage": true}
+		b.Run()
+		ok := len(b.Returns) > 0
+		for _, r := range b.Returns {
+			st := r.State
+			v, isC := st.rangeOf(r.Results[0]).IsConst()
+			if w.ok {
+				if !(isC && v == openSent && (st.must["call:fsm.startReading"] || st.must["go:fsm.read"]) && st.must["assign:holdTimer"] && !st.may["call:invoke:net.Conn.Close"]) {
+					ok = false
+				}
+			} else {
+				if !(isC && v == idle && st.must["call:invoke:net.Conn.Close"] && !st.may["call:fsm.startReading"] && !st.may["go:fsm.read"]) {
+					ok = false
+				}
+				if w.name != "Write fails" && st.may["call:invoke:net.Conn.Write"] {
+					ok = false
+				}
+			}
+		}
+		c.require(ok, rule, "fsm.sendOpenAndSetHoldTimer", w.name, p.Pos(so.Pos()),
+			"on any error the connection is closed, nothing (more) is written, the reader is not started and the FSM returns to Idle; on success the hold timer is armed and the reader started")
+	}
 }
